@@ -1755,8 +1755,8 @@ def run(chk: core.Check):
     timed("D seeds", seed_part, chk, [chk.seed * 1000 + i for i in range(chk.pick(3, 10))])
     # E
     nproc = max(1, min(chk.pick(8, 14), (os.cpu_count() or 2) - 1))
-    timed("E2 source emission", source_gof_part, chk, chk.pick(18, 120), chk.pick(50000, 300000))
-    timed("E goodness of fit", gof_part, chk, chk.pick(18, 144), chk.pick(8000, 100000), nproc)
+    timed("E2 source emission", source_gof_part, chk, chk.pick(18, 60), chk.pick(50000, 150000))
+    timed("E goodness of fit", gof_part, chk, chk.pick(18, 112), chk.pick(8000, 80000), nproc)
     chk.extra["part_seconds"] = secs
     chk.extra["statistical_test"] = {
         "label": "VALIDATION (statistical test, not proof)",
